@@ -317,8 +317,23 @@ def groupOp (C : Codec α) (args : List String) : String :=
     | _ => "bad-op"
   | _ => "bad-op"
 
+/-- `sencw` / `sencn`: `Encode` calls on ONE encoder whose writer has the budgets `buds` (`-`: none).
+`sencw` → per call `ok` / `err`, the number of bytes the writer accepted, the bytes; `sencn` → per call the advance of
+`BytesWritten` (= the number of bytes the writer accepted during the call) -/
+def failOp (E : Env α β) (hasG2 full counter : Bool) (raw buds : String) (items : List String) : String :=
+  match items.mapM (parseItem E hasG2 full) with
+  | none => "bad-op"
+  | some vs =>
+    let rs := encodeSeqTo E (raw == "1") (parse1 buds) vs
+    if counter then "n=" ++ ",".intercalate (rs.map (fun r => toHex r.1.length))
+    else
+      let out := (rs.map (·.1)).flatten
+      ",".intercalate (rs.map (fun r => if r.2 then "err" else "ok")) ++ " w=" ++ toHex out.length ++ " " ++ bytesToHex out
+
 def streamOp (E : Env α β) (hasG2 full : Bool) (args : List String) : String :=
   match args with
+  | "sencw" :: raw :: buds :: items => failOp E hasG2 full false raw buds items
+  | "sencn" :: raw :: buds :: items => failOp E hasG2 full true raw buds items
   | "senc" :: raw :: items =>
     match items.mapM (parseItem E hasG2 full) with
     | none => "bad-op"
